@@ -500,17 +500,22 @@ pub fn min_model(terms: &[Result<u8, String>]) -> Vec<u8> {
         eng.rep_cache_path = eng.stats.paths;
         let mut out = Vec::new();
         let mut pushed = 0;
+        // the previous minimum bounds byte i from below only while bytes 0..i kept their
+        // values (the minimum is lexicographic: a later byte can go down when an earlier one
+        // went up)
+        let mut prefix_same = true;
         for (i, t) in terms.iter().enumerate() {
             match t {
                 Ok(v) => out.push(*v),
                 Err(term) => {
+                    let usable = prev.is_some() && prefix_same;
                     let mut lo: u16 = match &prev {
-                        Some(p) => p[i] as u16,
-                        None => 0,
+                        Some(p) if usable => p[i] as u16,
+                        _ => 0,
                     };
                     // a previous minimum (of this path: nothing smaller can have become feasible;
                     // of another path: checked) is kept if it is feasible and nothing below it is
-                    let mut keep = prev.is_some() && eng.feasible(&format!("(= {} #x{:02x})", term, lo), true);
+                    let mut keep = usable && eng.feasible(&format!("(= {} #x{:02x})", term, lo), true);
                     if keep && !same_path && lo > 0 && eng.feasible(&format!("(bvult {} #x{:02x})", term, lo), true) {
                         keep = false;
                         lo = 0;
@@ -530,6 +535,11 @@ pub fn min_model(terms: &[Result<u8, String>]) -> Vec<u8> {
                     }
                     eng.send(&format!("(push)\n(assert (= {} #x{:02x}))\n", term, lo));
                     pushed += 1;
+                    if let Some(p) = &prev {
+                        if p[i] as u16 != lo {
+                            prefix_same = false;
+                        }
+                    }
                     out.push(lo as u8);
                 }
             }
